@@ -31,7 +31,18 @@ def _kw(ctx):
     return ctx._kwset
 
 
-def _oracle(ctx, kind, payload, pairs, bases, kwset, dis):
+def variant(ctx):
+    """Which model the real code is compared with: the code as it is, or — once known_findings.json lists
+    C02-suffix-collision as fixed (i.e. the proposed get_name fix has been committed) — `getNameFixed`."""
+    fixed = any(e.get("id") == FINDING_SUFFIX and e.get("status") == "fixed" for e in ctx.known)
+    return "_fixed" if fixed else ""
+
+
+def _listed_open(ctx):
+    return any(e.get("id") == FINDING_SUFFIX and e.get("status") == "open" for e in ctx.known)
+
+
+def _oracle(ctx, kind, payload, pairs, bases, kwset, dis, exempt_known=True):
     """Model-independent monitors on the real answers.  A uniqueness failure inside the region of the open
     known finding is counted, anything else is reported as a disagreement of kind `monitor`."""
     fails = L.check_names(pairs)
@@ -40,7 +51,7 @@ def _oracle(ctx, kind, payload, pairs, bases, kwset, dis):
     if not fails:
         return
     region = L.suffix_shaped_region(bases, kwset)
-    listed = any(e.get("id") == FINDING_SUFFIX and e.get("status") == "open" for e in ctx.known)
+    listed = exempt_known and _listed_open(ctx)
     for f in fails:
         if f[0] == "unique" and region and listed:
             ctx.cov.count("collisions inside known region (C02-suffix-collision)")
@@ -49,24 +60,30 @@ def _oracle(ctx, kind, payload, pairs, bases, kwset, dis):
                     "in_suffix_region": region})
 
 
-def run_getname_cases(ctx, cases, name, exhaustive=False):
+def run_getname_cases(ctx, cases, name, exhaustive=False, cls=None, var=None):
+    """`cls`/`var` given: the harness-side patched namespace class against `getNameFixed` (proposed fix)."""
     kwset = _kw(ctx)
     dis = []
-    outs = ctx.lean.call_batch([L.lean_getname_line(c) for c in cases])
+    v = variant(ctx) if var is None else var
+    outs = ctx.lean.call_batch([L.lean_getname_line(c, v) for c in cases])
     nontriv = 0
     with L.fast_signals():
         for c, o in zip(cases, outs):
-            real = L.run_real_getname(c, kwset)
+            real = L.run_real_getname(c, kwset, cls)
             model = L.unq_list(o)
             if model != real:
-                dis.append({"kind": "getname", "payload": c, "real": real, "model": o})
+                dis.append({"kind": "getname" if cls is None else "getname-proposed-fix", "payload": c, "real": real, "model": o})
             bases = [c["bases"][i] for i in c["reqs"]]
             if any(r != b for r, b in zip(real, bases)):
                 nontriv += 1
                 ctx.cov.count("getname: suffix issued")
             if any(b in kwset for b in bases):
                 ctx.cov.count("getname: keyword base")
-            _oracle(ctx, "getname", c, list(zip(c["reqs"], real)), bases, kwset if c["kw"] else set(), dis)
+            if cls is None:
+                _oracle(ctx, "getname", c, list(zip(c["reqs"], real)), bases, kwset if c["kw"] else set(), dis)
+            else:
+                _oracle(ctx, "getname-proposed-fix", c, list(zip(c["reqs"], real)), bases, kwset if c["kw"] else set(),
+                        dis, exempt_known=False)
     ctx.cov.add_cases(name, len(cases), nontriv, exhaustive)
     ctx.log("%s: %d cases, %d disagreements" % (name, len(cases), len(dis)))
     return dis
@@ -102,7 +119,7 @@ def run_spec_cases(ctx, specs, name, exhaustive=False, mode="C"):
         ctx.rng.shuffle(order)
         orders.append(order)
         lines.append(L.lean_dict_line(sp, order))
-        lines.append(L.lean_namespace_line(sp, order))
+        lines.append(L.lean_namespace_line(sp, order, variant(ctx)))
     outs = ctx.lean.call_batch(lines)
     nontriv = 0
     with L.fast_signals():
@@ -132,7 +149,7 @@ def run_convert_case(ctx, src, seed, regular_comb, dis):
     spec, keys = L.spec_from_convert(r, log)
     ans = [n for o, n in log]
     order = L.closure(spec)
-    out = ctx.lean.call(L.lean_namespace_line(spec, order))
+    out = ctx.lean.call(L.lean_namespace_line(spec, order, variant(ctx)))
     payload = {"src": src, "seed": seed, "regular_comb": regular_comb}
     if L.unq_list(out) != ans:
         dis.append({"kind": "convert", "payload": payload, "real": ans, "model": out})
@@ -146,8 +163,7 @@ def run_convert_case(ctx, src, seed, regular_comb, dis):
     decl = L.declared_identifiers(r.main_source)
     dup = [n for n, c in collections.Counter(decl).items() if c > 1]
     if dup:
-        listed = any(e.get("id") == FINDING_SUFFIX and e.get("status") == "open" for e in ctx.known)
-        if not (listed and L.suffix_shaped_region(bases, kwset)):
+        if not (_listed_open(ctx) and L.suffix_shaped_region(bases, kwset)):
             dis.append({"kind": "monitor", "case": "convert-text", "payload": payload, "oracle": ["declared-twice", dup]})
     ctx.cov.count("convert: get_name requests", len(ans))
     ctx.cov.count("convert: memories/instances/internal registers named", len(spec["extra"]))
@@ -256,7 +272,7 @@ def sensitivity_selftest(ctx, dis):
     c = {"kw": True, "bases": ["x", "x"], "ovr": [False, True], "reqs": [0, 1]}
     with L.fast_signals():
         real = L.run_real_getname(c, _kw(ctx))
-    model = L.unq_list(ctx.lean.call(L.lean_getname_line(c)))
+    model = L.unq_list(ctx.lean.call(L.lean_getname_line(c, variant(ctx))))
     if model != real or model[:1] + ["x_2"] == real or L.check_names([(0, "x"), (1, "x")]) == [] \
             or L.check_names([(0, "wire")]) == [] or L.check_names([(0, "a b")]) == [] \
             or L.check_names([(0, "x"), (0, "y")]) == []:
@@ -295,6 +311,17 @@ def correspond(ctx):
     # random
     dis += run_getname_cases(ctx, [L.gen_getname_case(rng) for _ in range(3000 if quick else 40000)],
                              "get_name: random bases (suffix-shaped, keywords), shuffled/repeated requests")
+    # the proposed fix: the real method's source text with the fix applied, against `getNameFixed`; the
+    # uniqueness/legality/stability oracles are applied without any exempted region
+    cls = L.fixed_namespace_class() if variant(ctx) == "" else None
+    if cls is not None:
+        dis += run_getname_cases(ctx, exhaustive_getname_cases(4),
+                                 "proposed fix (patched copy of get_name) vs getNameFixed: all bases over {x,x_1,if,if_1}, n<=4",
+                                 True, cls=cls, var="_fixed")
+        dis += run_getname_cases(ctx, [L.gen_getname_case(rng) for _ in range(2000 if quick else 20000)],
+                                 "proposed fix (patched copy of get_name) vs getNameFixed: random", False, cls=cls, var="_fixed")
+    else:
+        ctx.cov.notes.append("proposed-fix job skipped: get_name no longer contains the lines the fix replaces")
     dis += run_spec_cases(ctx, [L.gen_synthetic(rng) for _ in range(2500 if quick else 40000)],
                           "namespace: random synthetic back-traces depth<=5, related<=3, overrides")
     dis += run_spec_cases(ctx, [L.gen_synthetic(rng, nsig=rng.randint(10, 24)) for _ in range(150 if quick else 3000)],
@@ -342,13 +369,14 @@ def correspond(ctx):
 
 def _still(ctx, kind, payload):
     try:
-        saved = ctx.cov
+        saved, saved_log = ctx.cov, ctx.log
         import runner
         ctx.cov = runner.Coverage()
+        ctx.log = lambda *a: None
         try:
             return bool(run_payload(ctx, kind, payload))
         finally:
-            ctx.cov = saved
+            ctx.cov, ctx.log = saved, saved_log
     except Exception:
         return False
 
@@ -441,7 +469,7 @@ def probes(ctx):
 def _real_failure(ctx, kind, payload, respect_known=True):
     """Run one case on the real code only and apply the oracles.  Returns a description or None."""
     kwset = _kw(ctx)
-    listed = respect_known and any(e.get("id") == FINDING_SUFFIX and e.get("status") == "open" for e in ctx.known)
+    listed = respect_known and _listed_open(ctx)
     if kind == "getname":
         with L.fast_signals():
             real = L.run_real_getname(payload, kwset)
